@@ -13,12 +13,14 @@
 
   The model is KavaVerif/Model/Liquid.lean: x/liquid's TransferDelegation / MintDerivative / BurnDerivative and
   app/tally_handler.go transcribed line by line over the x/staking primitives as the SDK writes them (modelled,
-  not verified: x/staking is trusted).  `Cfg.current` is the code in /repo, `Cfg.fixed` the code with the three
-  one-line repairs of findings/C12-*.diff.  Four statements of the property are FALSE on the code as it is; for
-  each the full statement is kept in the doc comment, its negation is proved on a literal witness
-  (`…_counterexample`), the strongest true part is proved for the code as it is (`…_partial`) and the full
-  statement is proved for the repaired code (`…_fixed`).  Only property statements live here; helper lemmas are
-  in KavaVerif/Proofs/Liquid*.lean.
+  not verified: x/staking is trusted).  `cfg` is the configuration of the code in /repo — since the fix commits
+  932d1f99a (mint ⌊received shares⌋), 96498654b (no re-delegation of zero tokens) and 66dfa73a4 (the tally skips
+  derivatives of validators outside the bonded set) all three switches are on — and it is the configuration the
+  correspondence driver runs.  Every statement of the property is proved at full strength about this live
+  model.  Statements that do not depend on the switches are proved for every configuration `g`.  The last
+  section keeps, as `example`s about `Cfg.current` (the code *before* the three commits), the literal witnesses on
+  which four statements used to be false; the same witnesses are shown to be handled by the live model next to
+  each theorem.  Only property statements live here; helper lemmas are in KavaVerif/Proofs/Liquid*.lean.
 -/
 import KavaVerif.Proofs.LiquidTally
 set_option linter.unusedSimpArgs false
@@ -26,6 +28,10 @@ set_option linter.unusedVariables false
 
 namespace KV.Liquid
 open KV
+
+/-- the live model has the three repairs: switching one off in Model/Liquid.lean re-opens every obligation below -/
+theorem C12_live_configuration :
+    cfg.mintReceived = true ∧ cfg.skipZeroDelegate = true ∧ cfg.tallySkipUnbonded = true := ⟨rfl, rfl, rfl⟩
 
 /-! ## Witness states (all reachable: see findings/C12-*.md for the same histories on the real keepers) -/
 
@@ -71,63 +77,29 @@ theorem exSlashed_wf : WF exAccts exSlashed ∧ SaneRate exSlashed ∧ Backed 0 
 
 /-! ## 1. Backing -/
 
-/-- **FALSE on the code as it is** (finding F6).  Full statement: every successful MintDerivative preserves
-    `supply(v) ≤ module delegation shares(v)`.  On a validator whose exchange rate is not one, `MintDerivative`
-    mints `⌊shares sent⌋` derivative units while the module receives `SharesFromTokens(⌊TokensFromShares(shares
-    sent)⌋)`, which can be more than one share less: minting 3 tokens on the 93/100 validator mints 3 units
-    against 2.1269… module shares.  The state satisfies every invariant of x/staking (`exSlashed_wf`). -/
-theorem C12_backed_counterexample :
-    ¬ (∀ (M : Addr) (c c' : VSt) (d : Addr) (amount der : Int), d ≠ M → Backed M c →
-        mint Cfg.current M c d true amount = .ok (c', der) → Backed M c') := by
-  intro h
-  have w : (mint Cfg.current 0 exSlashed 1 true 3).okAnd (fun p => decide (¬ Backed 0 p.1)) = true := by decide
-  obtain ⟨⟨c', der⟩, hm, hp⟩ := Res.okAnd_elim w
-  exact (of_decide_eq_true hp) (h 0 exSlashed c' 1 3 der (by decide) (by decide) hm)
-
-/-- The strongest true part on the code as it is: along every history (mints, burns, sends, delegations,
-    undelegations, redelegations, jailing / status changes, slashes of *other* validators — failed messages
-    change nothing), a validator that starts with exchange rate one and whole shares and is never slashed keeps
-    its derivative backed.  `accts` lists the accounts that ever delegate (x/staking's well-formedness is carried
-    along for the redelegations arriving from other validators). -/
-theorem C12_backed_partial (accts : List Addr) (hn : accts.Nodup) (g : Cfg) (M : Addr) (hM : M ∈ accts) (v : Nat)
-    (ops : List Op) (s s' : Chain) (hact : ∀ op ∈ ops, ∀ a ∈ op.actors, a ∈ accts)
-    (hns : ∀ op ∈ ops, ¬ op.slashes v) (hwf : ∀ w, WF accts (s w)) (hgood : Good M (s v))
-    (hrun : run g M s ops = some s') : Backed M (s' v) :=
-  (run_good accts hn g M hM v ops s s' hact hns (fun w => ⟨hwf w, by intro e; cases e⟩) hgood hrun).2
-
-/-- non-vacuity: `exHealthy` meets the hypotheses and a mint, a burn and a refused mint happen in a history -/
-example : Good 0 exHealthy := by
-  refine ⟨⟨?_, ?_⟩, by decide⟩
-  · intro a d hd; simp only [exHealthy] at hd
-    split at hd
-    · cases hd; decide
-    · split at hd
-      · cases hd; decide
-      · split at hd
-        · cases hd; decide
-        · cases hd
-  · intro v hv; simp only [exHealthy, Option.some.injEq] at hv; subst hv; decide
-example : (match run Cfg.current 0 (fun _ => exHealthy) [.mint 1 0 7, .burn 2 0 1, .mint 3 0 1, .slash 1 5] with
-    | some s => decide ((s 0).supply = 16 ∧ dm (s 0) 0 = 16 * P ∧ dm (s 0) 2 = 1 * P) | none => false) = true := by decide
-
-/-- **Full statement, proved for the repaired code** (`mintReceived`: mint ⌊shares received by the module⌋):
-    along every history, slashes of any validator included, every validator's derivative supply stays within the
-    module's delegation shares. -/
-theorem C12_backed_fixed (accts : List Addr) (hn : accts.Nodup) (g : Cfg) (hg : g.mintReceived = true)
-    (M : Addr) (hM : M ∈ accts) (ops : List Op) (s s' : Chain)
+/-- **Backing, full strength, live model.**  Along every history — mints, burns, sends, delegations,
+    undelegations, redelegations, jailing / status changes and slashes of any validator; a failed message changes
+    nothing — every validator's derivative supply stays within the delegation shares of the module account.
+    `accts` lists the accounts that ever delegate (the module account among them); `WF` is x/staking's own
+    well-formedness (shares non-negative and adding up to DelegatorShares, tokens non-negative), which the
+    modelled primitives preserve. -/
+theorem C12_backed (accts : List Addr) (hn : accts.Nodup) (M : Addr) (hM : M ∈ accts) (ops : List Op) (s s' : Chain)
     (hact : ∀ op ∈ ops, ∀ a ∈ op.actors, a ∈ accts)
     (hwf : ∀ w, WF accts (s w)) (hb : ∀ w, Backed M (s w))
-    (hrun : run g M s ops = some s') : ∀ w, Backed M (s' w) := fun w =>
-  (run_inv_fixed true accts hn g (fun _ => hg) M hM ops s s' hact (fun w => ⟨hwf w, fun _ => hb w⟩) hrun w).2 rfl
+    (hrun : run cfg M s ops = some s') : ∀ w, Backed M (s' w) := fun w =>
+  (run_inv_fixed true accts hn cfg (fun _ => rfl) M hM ops s s' hact (fun w => ⟨hwf w, fun _ => hb w⟩) hrun w).2 rfl
 
-/-- the repaired code on the witness of the counterexample: 2 units against 2.1269… shares -/
-example : (mint Cfg.fixed 0 exSlashed 1 true 3).okAnd (fun p => decide (Backed 0 p.1 ∧ p.2 = 2)) = true := by decide
-example : (match run Cfg.fixed 0 (fun _ => exSlashed) [.mint 1 0 3, .slash 0 40, .mint 1 0 5, .burn 1 0 2] with
+/-- non-vacuity and the former witness (finding F6: 93 tokens / 100 shares, mint 3): the live model mints 2 units
+    against 2.1269… module shares, and stays backed through a further slash, mint and burn -/
+example : (∀ w : Nat, WF exAccts ((fun _ => exSlashed : Chain) w)) ∧ ∀ w : Nat, Backed 0 ((fun _ => exSlashed : Chain) w) :=
+  ⟨fun _ => exSlashed_wf.1, fun _ => exSlashed_wf.2.2⟩
+example : (mint cfg 0 exSlashed 1 true 3).okAnd (fun p => decide (Backed 0 p.1 ∧ p.2 = 2)) = true := by decide
+example : (match run cfg 0 (fun _ => exSlashed) [.mint 1 0 3, .slash 0 40, .mint 1 0 5, .burn 1 0 2] with
     | some s => decide (Backed 0 (s 0) ∧ 0 < (s 0).supply) | none => false) = true := by decide
 
-/-- True on the code as it is, whatever the exchange rate: a burn lowers the supply by `amount` and the module's
-    shares by exactly `amount` shares, so burning never creates or widens a backing deficit (and, read backwards,
-    never repairs one: a deficit once created by a mint stays until the last holders find their burn refused). -/
+/-- Any configuration, any exchange rate: a burn lowers the supply by `amount` and the module's
+    shares by exactly `amount` shares, so with backing every holder can redeem: a burn of `amount ≤ supply` units
+    finds at least `amount` shares in the module's delegation, and leaves the margin `module shares − supply` as it was. -/
 theorem C12_burn_keeps_margin (g : Cfg) (M : Addr) (c c' : VSt) (d : Addr) (amount : Int) (r : Dec) (hne : d ≠ M)
     (h : burn g M c d amount = .ok (c', r)) :
     dm c' M - c'.supply * P = dm c M - c.supply * P := by
@@ -147,66 +119,33 @@ theorem C12_burn_keeps_margin (g : Cfg) (M : Addr) (c c' : VSt) (d : Addr) (amou
 
 /-! ## 2. No empty delegation -/
 
-/-- **FALSE on the code as it is** (finding F7).  Full statement: a successful conversion never leaves a
-    delegation record with zero shares.  Burning one derivative unit of the 93/100 validator unbonds one module
-    share worth ⌊0.93⌋ = 0 tokens, delegates 0 tokens for the holder and stores a delegation of 0 shares for an
-    account that never delegated. -/
-theorem C12_no_empty_delegation_counterexample :
-    ¬ (∀ (M : Addr) (c c' : VSt) (d : Addr) (amount : Int) (r : Dec), d ≠ M → (∀ a, NoEmptyAt c a) →
-        burn Cfg.current M c d amount = .ok (c', r) → ∀ a, NoEmptyAt c' a) := by
-  intro h
-  have w : (burn Cfg.current 0 exHolder 2 1).okAnd (fun p => decide (¬ NoEmptyAt p.1 2)) = true := by decide
-  obtain ⟨⟨c', r⟩, hm, hp⟩ := Res.okAnd_elim w
-  refine (of_decide_eq_true hp) (h 0 exHolder c' 2 1 r (by decide) ?_ hm 2)
-  intro a; unfold NoEmptyAt exHolder; simp only []
-  split
-  · decide
-  · split
-    · decide
-    · split
-      · decide
-      · simp
-
-/-- The strongest true part on the code as it is: a transfer of shares worth at least one token (at a sane
-    exchange rate: one 10^-18 share is worth at most half a token) credits a strictly positive number of shares
-    and leaves no empty record. -/
-theorem C12_no_empty_delegation_partial (accts : List Addr) (hn : accts.Nodup) (g : Cfg) (c c' : VSt)
-    (frm to : Addr) (sh r : Dec) (hf : frm ∈ accts) (ht : to ∈ accts) (hne : frm ≠ to) (hwf : WF accts c)
-    (hrate : SaneRate c) (hworth : WorthOneToken c sh) (hnone : ∀ a, NoEmptyAt c a)
-    (h : transfer g c frm to sh = .ok (c', r)) : 0 < r.m ∧ ∀ a, NoEmptyAt c' a := by
-  obtain ⟨h1, -, -, h4⟩ := transfer_no_empty accts hn g c c' frm to sh r hf ht hne hwf hrate (Or.inr hworth) h
-  exact ⟨h4 hworth, fun a => h1 a (hnone a)⟩
-
-example : WorthOneToken exHolder (Dec.ofInt 2) := by
-  intro v hv; simp only [exHolder, Option.some.injEq] at hv; subst hv; decide
-
-/-- **Full statement, proved for the repaired code** (`skipZeroDelegate`: when the unbonded amount is zero nothing
-    is re-delegated and zero received shares are returned — the outcome the maintainers' own test
-    "zero shares received when transfer < 1 token" expects, minus the empty record): every successful
-    TransferDelegation — hence every mint and burn — leaves no empty delegation; either the recipient's record is
-    untouched and zero shares are reported, or a strictly positive number of shares is credited. -/
-theorem C12_no_empty_delegation_fixed (accts : List Addr) (hn : accts.Nodup) (g : Cfg) (hg : g.skipZeroDelegate = true)
-    (c c' : VSt) (frm to : Addr) (sh r : Dec) (hf : frm ∈ accts) (ht : to ∈ accts) (hne : frm ≠ to)
-    (hwf : WF accts c) (hrate : SaneRate c) (hnone : ∀ a, NoEmptyAt c a)
-    (h : transfer g c frm to sh = .ok (c', r)) :
-    (∀ a, NoEmptyAt c' a) ∧ ((c'.del to = c.del to ∧ r.m = 0) ∨ 0 < r.m) := by
-  obtain ⟨h1, -, h3, -⟩ := transfer_no_empty accts hn g c c' frm to sh r hf ht hne hwf hrate (Or.inl hg) h
-  refine ⟨fun a => h1 a (hnone a), ?_⟩
+/-- **No empty delegation, full strength, live model.**  Every successful TransferDelegation — hence every mint and
+    burn — leaves no delegation record with zero shares; either nothing was worth a token (the recipient's record is
+    untouched and zero received shares are reported, the outcome the maintainers' test "zero shares received when
+    transfer < 1 token" expects) or a strictly positive number of shares is credited, which is always the case when
+    the shares sent are worth at least one token.  `SaneRate`: one 10^-18 share is worth at most half a token. -/
+theorem C12_no_empty_delegation (accts : List Addr) (hn : accts.Nodup) (c c' : VSt) (frm to : Addr) (sh r : Dec)
+    (hf : frm ∈ accts) (ht : to ∈ accts) (hne : frm ≠ to) (hwf : WF accts c) (hrate : SaneRate c)
+    (hnone : ∀ a, NoEmptyAt c a) (h : transfer cfg c frm to sh = .ok (c', r)) :
+    (∀ a, NoEmptyAt c' a) ∧ ((c'.del to = c.del to ∧ r.m = 0) ∨ 0 < r.m) ∧ (WorthOneToken c sh → 0 < r.m) := by
+  obtain ⟨h1, -, h3, h4⟩ := transfer_no_empty accts hn cfg c c' frm to sh r hf ht hne hwf hrate (Or.inl rfl) h
+  refine ⟨fun a => h1 a (hnone a), ?_, h4⟩
   rcases h3 with h3 | h3
   · exact Or.inl h3
   · exact Or.inr h3.1
 
-/-- the repaired code on the witness of the counterexample: the unit is burnt, no record is stored for account 2;
-    a burn of two units credits shares -/
-example : (burn Cfg.fixed 0 exHolder 2 1).okAnd (fun p => decide (p.1.del 2 = none ∧ p.2.m = 0 ∧ p.1.supply = 9)) = true := by decide
-example : (burn Cfg.fixed 0 exHolder 1 2).okAnd (fun p => decide (NoEmptyAt p.1 1 ∧ 0 < p.2.m)) = true := by decide
+/-- the former witness (finding F7: an account that never delegated burns one unit worth 0 tokens): the unit is
+    burnt, no record is stored; a burn of two units credits shares -/
+example : (burn cfg 0 exHolder 2 1).okAnd (fun p => decide (p.1.del 2 = none ∧ p.2.m = 0 ∧ p.1.supply = 9)) = true := by decide
+example : (burn cfg 0 exHolder 1 2).okAnd (fun p => decide (NoEmptyAt p.1 1 ∧ 0 < p.2.m)) = true := by decide
+example : WorthOneToken exHolder (Dec.ofInt 2) := by
+  intro v hv; simp only [exHolder, Option.some.injEq] at hv; subst hv; decide
 
 /-! ## 3. Bonded tokens, status and unbonding entries are untouched -/
 
 /-- A successful mint or burn leaves the validator in place with the same tokens (hence the same bonded tokens and
     voting power), the same status, jailed flag, minimum self delegation and operator: the stake never leaves the
-    validator, and the self-delegation guard makes the jailing branch of `Unbond` unreachable.  (`hpos` is needed
-    only for the repaired code, whose zero-amount branch does not re-delegate: a validator without tokens that loses
+    validator, and the self-delegation guard makes the jailing branch of `Unbond` unreachable.  (`hpos`, for the live model: the validator has tokens — the zero-amount branch does not re-delegate and a validator without tokens that loses
     its last share is removed by `Unbond`, as in x/staking's own Undelegate.) -/
 theorem C12_bonded_tokens_unchanged (g : Cfg) (M : Addr) (c c' : VSt) (d : Addr) (amount : Int) (hne : d ≠ M)
     (hpos : g.skipZeroDelegate = false ∨ ∀ v, c.val = some v → 0 < v.tokens) :
@@ -265,7 +204,7 @@ theorem C12_no_unbonding_entry (g : Cfg) (M : Addr) (c c' : VSt) (d : Addr) (amo
       transfer_effect g _ c' M d _ r (fun e => hne e.symm) ht
     exact ⟨f2, f1, hdt⟩
 
-example : (mint Cfg.current 0 exHealthy 1 true 7).isOk = true ∧ (burn Cfg.current 0 exHealthy 2 1).isOk = true := by decide
+example : (mint cfg 0 exHealthy 1 true 7).isOk = true ∧ (burn cfg 0 exHealthy 2 1).isOk = true := by decide
 
 /-! ## 4. Guards -/
 
@@ -305,36 +244,48 @@ theorem C12_guards (g : Cfg) (M : Addr) (c : VSt) (frm to d : Addr) (sh : Dec) (
     · unfold transfer; simp only [h, ite_true]; rfl
 
 /-- non-vacuity: account 3 has an incoming redelegation; the operator 9 may mint 20 of its 50 (minimum 30) but not 21 -/
-example : (mint Cfg.current 0 { exHealthy with del := fun a => if a = 3 then some ⟨5 * P⟩ else exHealthy.del a } 3 true 1).isErr = true := by decide
-example : (mint Cfg.current 0 exHealthy 9 true 20).isOk = true ∧ (mint Cfg.current 0 exHealthy 9 true 21).isErr = true := by decide
+example : (mint cfg 0 { exHealthy with del := fun a => if a = 3 then some ⟨5 * P⟩ else exHealthy.del a } 3 true 1).isErr = true := by decide
+example : (mint cfg 0 exHealthy 9 true 20).isOk = true ∧ (mint cfg 0 exHealthy 9 true 21).isErr = true := by decide
 
 /-! ## 5. The value of the user's stake -/
 
-/-- **FALSE on the code as it is** (a second face of finding F6).  Full statement: a successful mint changes the
-    value of the user's stake — delegation shares plus derivative units, at the validator's tokens/shares rate, the
-    valuation `GetStakedTokensForDerivatives` and the tally use — by at most two base units.  The account owning
-    900 of the 1000 shares of a 930-token validator mints 606 tokens: 651 units are minted for 648.53… shares
-    received by the module, the 3 missing shares raise the price of every remaining share, and the account's
-    stake is valued 2.01 tokens higher than before.  All of x/staking's invariants hold, the rate is sane and stays
-    below one (`C12_value_counterexample_state_ok`). -/
-theorem C12_value_within_two_units_counterexample :
-    ¬ (∀ (M : Addr) (c c' : VSt) (d : Addr) (amount der : Int), d ≠ M →
-        mint Cfg.current M c d true amount = .ok (c', der) → ValueWithinTwo c c' d) := by
-  intro h
-  have w : (mint Cfg.current 0 exWhale 1 true 606).okAnd (fun p => decide (¬ ValueWithinTwo exWhale p.1 1)) = true := by decide
-  obtain ⟨⟨c', der⟩, hm, hp⟩ := Res.okAnd_elim w
-  exact (of_decide_eq_true hp) (h 0 exWhale c' 1 606 der (by decide) hm)
+/-- **Value within two base units, live model — exactly what holds.**  The value of an account's stake on a
+    validator is what the chain itself uses (`GetStakedTokensForDerivatives`, tally): (delegation shares +
+    derivative units) × tokens / shares; `ValueWithinTwo c c' d` says |value' − value| ≤ 2, cross-multiplied.
+    For every successful **mint** and every successful **burn**: the change is at most two base units — less than
+    one token is left behind by the truncation in `RemoveDelShares`, less than one share is lost to the floor on
+    the minted amount (burn: nothing) — under: x/staking's invariants (`WF`), a sane rate, a validator with
+    tokens, a non-negative balance, the holder's claim not exceeding the validator's shares (what backing gives),
+    and an exchange rate of at most one token per share after the operation (every validator that was only ever
+    slashed; for a rate r > 1, reachable only through trimmings, the second unit becomes r). -/
+theorem C12_value_within_two_units (accts : List Addr) (hn : accts.Nodup) (M : Addr) (c c' : VSt) (d : Addr)
+    (amount : Int) (hM : M ∈ accts) (hd : d ∈ accts) (hne : d ≠ M)
+    (hwf : WF accts c) (hrate : SaneRate c) (hTpos : ∀ v, c.val = some v → 0 < v.tokens)
+    (hbal : 0 ≤ c.bal d) (hH : dm c d + c.bal d * P ≤ sharesOf c)
+    (hpost : ∀ v', c'.val = some v' → 0 ≤ v'.tokens ∧ v'.tokens * P ≤ v'.shares.m) :
+    (∀ der, mint cfg M c d true amount = .ok (c', der) → ValueWithinTwo c c' d) ∧
+    (∀ r, burn cfg M c d amount = .ok (c', r) → ValueWithinTwo c c' d) := by
+  constructor
+  · intro der h
+    exact mint_value_fixed accts hn cfg rfl M c c' d amount der hM hd hne hwf hrate hTpos hbal hH
+      (fun v' hv' => (hpost v' hv').2) h
+  · intro r h
+    refine burn_value accts hn cfg M c c' d amount r hM hd hne hwf hrate hTpos hH ?_ h
+    intro v' hv'
+    obtain ⟨h0, h1⟩ := hpost v' hv'
+    have : v'.tokens * 1 ≤ v'.tokens * P := Int.mul_le_mul_of_nonneg_left (by decide) h0
+    omega
 
-theorem C12_value_counterexample_state_ok :
-    SaneRate exWhale ∧ dm exWhale 1 + exWhale.bal 1 * P ≤ sharesOf exWhale ∧
-    (mint Cfg.current 0 exWhale 1 true 606).okAnd
-      (fun p => match p.1.val with | some v' => decide (v'.tokens * P ≤ v'.shares.m) | none => false) = true := by
-  refine ⟨?_, by decide, by decide⟩
+/-- the former witness (900 of the 1000 shares of a 930-token validator, mint 606): the live model mints 648 units
+    and the stake's value stays within two units -/
+example : (mint cfg 0 exWhale 1 true 606).okAnd (fun p => decide (ValueWithinTwo exWhale p.1 1 ∧ p.2 = 648)) = true := by decide
+theorem exWhale_ok : SaneRate exWhale ∧ dm exWhale 1 + exWhale.bal 1 * P ≤ sharesOf exWhale := by
+  refine ⟨?_, by decide⟩
   intro v hv; simp only [exWhale, Option.some.injEq] at hv; subst hv; decide
 
-/-- The strongest true part on the code as it is, for mints: on a validator with exchange rate one and whole
-    shares the value of the user's stake does not change at all. -/
-theorem C12_value_within_two_units_partial (g : Cfg) (M : Addr) (c c' : VSt) (d : Addr) (amount der : Int)
+/-- Any configuration: on a validator with exchange rate one and whole shares (never slashed) a mint does not change
+    the value of the user's stake at all. -/
+theorem C12_value_unchanged_at_rate_one (g : Cfg) (M : Addr) (c c' : VSt) (d : Addr) (amount der : Int)
     (hne : d ≠ M) (hgood : Good M c) (h : mint g M c d true amount = .ok (c', der)) :
     stakeNum c' d = stakeNum c d ∧ sharesOf c' = sharesOf c ∧ ValueWithinTwo c c' d := by
   obtain ⟨hg', hd0, -, hdd, -, hbal⟩ := mint_good g M c c' d amount der hne hgood h
@@ -362,34 +313,6 @@ theorem C12_value_within_two_units_partial (g : Cfg) (M : Addr) (c c' : VSt) (d 
   have : 0 ≤ 2 * sharesOf c * sharesOf c := Int.mul_nonneg (Int.mul_nonneg (by decide) h0) h0
   omega
 
-/-- True on the code as it is, whatever the exchange rate: a burn changes the value of the holder's stake by at
-    most two base units (in fact by less than one).  Hypotheses: x/staking's invariants, a sane rate, the holder's
-    claim does not exceed the validator's shares (which is what backing gives), and after the burn one 10^-18 share
-    is still worth at most one token. -/
-theorem C12_value_within_two_units_burn (accts : List Addr) (hn : accts.Nodup) (g : Cfg) (M : Addr)
-    (c c' : VSt) (d : Addr) (amount : Int) (r : Dec) (hM : M ∈ accts) (hd : d ∈ accts) (hne : d ≠ M)
-    (hwf : WF accts c) (hrate : SaneRate c) (hTpos : ∀ v, c.val = some v → 0 < v.tokens)
-    (hH : dm c d + c.bal d * P ≤ sharesOf c)
-    (hpost : ∀ v', c'.val = some v' → v'.tokens ≤ v'.shares.m)
-    (h : burn g M c d amount = .ok (c', r)) : ValueWithinTwo c c' d :=
-  burn_value accts hn g M c c' d amount r hM hd hne hwf hrate hTpos hH hpost h
-
-/-- **Full statement, proved for the repaired code** (`mintReceived`): a mint changes the value of the user's stake
-    by at most two base units — less than one token is left behind by the truncation in `RemoveDelShares` and
-    less than one share is lost to the floor on the minted amount.  The bound "two" is for validators whose rate
-    after the mint is at most one token per share (every validator that was only ever slashed); in general the
-    second unit is one share's worth of tokens. -/
-theorem C12_value_within_two_units_fixed (accts : List Addr) (hn : accts.Nodup) (g : Cfg) (hg : g.mintReceived = true)
-    (M : Addr) (c c' : VSt) (d : Addr) (amount der : Int) (hM : M ∈ accts) (hd : d ∈ accts) (hne : d ≠ M)
-    (hwf : WF accts c) (hrate : SaneRate c) (hTpos : ∀ v, c.val = some v → 0 < v.tokens)
-    (hbal : 0 ≤ c.bal d) (hH : dm c d + c.bal d * P ≤ sharesOf c)
-    (hpost : ∀ v', c'.val = some v' → v'.tokens * P ≤ v'.shares.m)
-    (h : mint g M c d true amount = .ok (c', der)) : ValueWithinTwo c c' d :=
-  mint_value_fixed accts hn g hg M c c' d amount der hM hd hne hwf hrate hTpos hbal hH hpost h
-
-/-- the repaired code on the witness of the counterexample -/
-example : (mint Cfg.fixed 0 exWhale 1 true 606).okAnd (fun p => decide (ValueWithinTwo exWhale p.1 1 ∧ p.2 = 648)) = true := by decide
-
 /-! ## 6. The governance tally -/
 
 /-- validator 0 bonded with 1 000 000 tokens; validator 1 jailed → unbonding (not in the handler's set) with
@@ -409,12 +332,11 @@ def exTValsEmpty : List TVal :=
 def exTVotesEmpty : List TVote :=
   [{ oper := none, opts := [(1, ⟨P⟩)], dels := [], wallet := [], savings := [], earn := [(1, 1)] }]
 
-/-- what x/gov and x/staking guarantee of every stored vote -/
+/-- what x/gov and x/staking guarantee of every stored vote: weights validated by `ValidateBasic`, non-negative shares -/
 def VoteOK0 (t : TVote) : Prop := OptsOK t.opts ∧ ∀ x ∈ t.dels, 0 ≤ x.2.m
 
-theorem exT_ok : ValsOK exTVals ∧ (∀ t ∈ exTVotes, VoteOK0 t) ∧
-    (∀ a, voteLoop Cfg.current exTVals TAcc.init exTVotes = some a → DedOK exTVals a) := by
-  refine ⟨?_, ?_, ?_⟩
+theorem exT_ok : ValsOK exTVals ∧ (∀ t ∈ exTVotes, VoteOK0 t) ∧ ValsOK exTValsEmpty ∧ (∀ t ∈ exTVotesEmpty, VoteOK0 t) := by
+  refine ⟨?_, ?_, ?_, ?_⟩
   · intro v hb
     match v with
     | 0 => decide
@@ -425,71 +347,51 @@ theorem exT_ok : ValsOK exTVals ∧ (∀ t ∈ exTVotes, VoteOK0 t) ∧
     subst ht
     refine ⟨⟨?_, by decide, by decide⟩, by intro x hx; cases hx⟩
     intro ow how; simp only [List.mem_singleton] at how; subst how; decide
-  · intro a ha v hb
+  · intro v hb
     match v with
-    | 0 =>
-      have h0 : (voteLoop Cfg.current exTVals TAcc.init exTVotes).map (fun a => a.ded 0) = some 0 := by decide
-      rw [ha] at h0; simp only [Option.map_some, Option.some.injEq] at h0
-      rw [h0]; decide
+    | 0 => decide
     | 1 => cases hb
     | n + 2 => cases hb
+  · intro t ht
+    simp only [exTVotesEmpty, List.mem_singleton] at ht
+    subst ht
+    refine ⟨⟨?_, by decide, by decide⟩, by intro x hx; cases hx⟩
+    intro ow how; simp only [List.mem_singleton] at how; subst how; decide
 
-/-- **FALSE on the code as it is** (finding F8).  Full statement: the counted power never exceeds the tokens of the
-    validators in the handler's bonded set (hence never `TotalBondedTokens`).  The handler adds the token value of
-    a voter's derivatives *outside* the `if val, ok := currValidators[…]` test, so the derivatives of a jailed /
-    unbonding / unbonded validator still vote: 500 000 000 counted against 1 000 000 bonded. -/
-theorem C12_tally_le_bonded_counterexample :
-    ¬ (∀ (vals : List TVal) (votes : List TVote) (o : TallyOut), ValsOK vals → (∀ t ∈ votes, VoteOK0 t) →
-        (∀ a, voteLoop Cfg.current vals TAcc.init votes = some a → DedOK vals a) →
-        tally Cfg.current vals votes = some o → o.counted ≤ bondedTotal vals) := by
-  intro h
-  have w : (tally Cfg.current exTVals exTVotes).map (fun o => decide (bondedTotal exTVals < o.counted)) = some true := by decide
-  cases ht : tally Cfg.current exTVals exTVotes with
-  | none => rw [ht] at w; cases w
-  | some o =>
-    rw [ht] at w; simp only [Option.map_some, Option.some.injEq, decide_eq_true_eq] at w
-    have := h exTVals exTVotes o exT_ok.1 exT_ok.2.1 exT_ok.2.2 ht
-    omega
-
-/-- The strongest true part on the code as it is: when every derivative held by a voter belongs to a validator of
-    the handler's set (third clause of `VoteOK`), the total voting power is at most the set's tokens plus half a
-    10^-18 unit per rounding, and the integer TallyResult (yes + abstain + no + veto) never exceeds the set's
-    tokens.  `DedOK` — deductions ≤ the validator's shares — is what backing and x/staking's share accounting give;
-    `hsmall` excludes tallies performing more than 4·10^17 roundings. -/
-theorem C12_tally_le_bonded_partial (g : Cfg) (vals : List TVal) (votes : List TVote) (o : TallyOut) (hv : ValsOK vals)
-    (hok : ∀ t ∈ votes, VoteOK g vals t)
-    (hd : ∀ a, voteLoop g vals TAcc.init votes = some a → DedOK vals a)
+/-- **Counted power ≤ bonded stake, full strength, live model.**  Whatever derivatives the voters hold (of bonded,
+    jailed, unbonding or unbonded validators), the integer TallyResult (yes + abstain + no + veto) never exceeds
+    the tokens of the validators in the handler's bonded set — hence never `TotalBondedTokens` — and the total
+    voting power exceeds them by at most half a 10^-18 unit per rounding.  `ValsOK`: validators of the set have
+    positive shares; `DedOK`: the deductions of a validator do not exceed its shares (what backing — `C12_backed` —
+    and x/staking's share accounting give: voters' delegations plus voters' derivatives ≤ delegations plus module
+    delegation); `hsmall` excludes tallies performing more than 4·10^17 roundings. -/
+theorem C12_tally_le_bonded (vals : List TVal) (votes : List TVote) (o : TallyOut) (hv : ValsOK vals)
+    (hok : ∀ t ∈ votes, VoteOK0 t)
+    (hd : ∀ a, voteLoop cfg vals TAcc.init votes = some a → DedOK vals a)
     (hsmall : 5 * tallyItems vals votes < 2 * P)
-    (h : tally g vals votes = some o) :
-    o.counted ≤ bondedTotal vals ∧ 2 * o.total ≤ 2 * (bondedTotal vals * P) + tallyItems vals votes :=
-  ⟨tally_counted_le g vals votes o hv hok hd hsmall h, (tally_bounds g vals votes o hv hok hd h).1⟩
+    (h : tally cfg vals votes = some o) :
+    o.counted ≤ bondedTotal vals ∧ 2 * o.total ≤ 2 * (bondedTotal vals * P) + tallyItems vals votes := by
+  have hok' : ∀ t ∈ votes, VoteOK cfg vals t := fun t ht => ⟨(hok t ht).1, (hok t ht).2, fun _ _ => Or.inr rfl⟩
+  exact ⟨tally_counted_le cfg vals votes o hv hok' hd hsmall h, (tally_bounds cfg vals votes o hv hok' hd h).1⟩
 
-/-- non-vacuity: both validators bonded, the derivative holder, a delegator with a split vote and validator 1 itself
-    vote; every unit is counted once: the four counts add up to 465 399 999 ≤ 465 000 000 (validator 1) + 400 000 (the delegation to validator 0) -/
-example : (tally Cfg.current
+/-- the former witness (finding F8: 1 000 000 bonded, a voter holding 500 000 000 units of an unbonding validator):
+    nothing is counted for it -/
+example : (tally cfg exTVals exTVotes).map (fun o => o.counted) = some 0 ∧ bondedTotal exTVals = 1000000 := by decide
+
+/-- non-vacuity: both validators bonded; the derivative holder (wallet + savings + earn), a delegator with a split
+    vote and validator 1 itself vote; the four counts add up to 465 399 999 ≤ 465 000 000 (validator 1) + 400 000
+    (the delegation to validator 0, which does not vote itself) -/
+example : (tally cfg
     [{ tokens := 1000000, shares := ⟨1000000 * P⟩, bonded := true }, { tokens := 465000000, shares := ⟨500000000 * P⟩, bonded := true }]
     [{ oper := none, opts := [(1, ⟨P⟩)], dels := [], wallet := [(1, 300000000)], savings := [(1, 50000000)], earn := [(1, 50000000)] },
      { oper := none, opts := [(3, ⟨P / 2⟩), (4, ⟨P / 2⟩)], dels := [(0, ⟨400000 * P⟩), (1, ⟨1000000 * P + 1⟩)], wallet := [], savings := [], earn := [] },
      { oper := some 1, opts := [(2, ⟨P⟩)], dels := [(1, ⟨7 * P⟩)], wallet := [], savings := [], earn := [] }]).map
     (fun o => (o.yes, o.abstain, o.no, o.veto)) = some (372000000, 92069999, 665000, 665000) := by decide
 
-/-- **Full statement, proved for the repaired code** (`tallySkipUnbonded`: a derivative whose validator is not in
-    `currValidators` is skipped): no hypothesis on which derivatives the voters hold. -/
-theorem C12_tally_le_bonded_fixed (g : Cfg) (hg : g.tallySkipUnbonded = true) (vals : List TVal) (votes : List TVote)
-    (o : TallyOut) (hv : ValsOK vals) (hok : ∀ t ∈ votes, VoteOK0 t)
-    (hd : ∀ a, voteLoop g vals TAcc.init votes = some a → DedOK vals a)
-    (hsmall : 5 * tallyItems vals votes < 2 * P)
-    (h : tally g vals votes = some o) :
-    o.counted ≤ bondedTotal vals ∧ 2 * o.total ≤ 2 * (bondedTotal vals * P) + tallyItems vals votes :=
-  C12_tally_le_bonded_partial g vals votes o hv (fun t ht => ⟨(hok t ht).1, (hok t ht).2, fun _ _ => Or.inr hg⟩) hd hsmall h
-
-/-- the repaired handler on the witness of the counterexample: nothing is counted for the unbonding validator -/
-example : (tally Cfg.fixed exTVals exTVotes).map (fun o => o.counted) = some 0 := by decide
-
 /-- A derivative is counted once: `getAddrBkava` lists each validator at most once, with the units held in the
     wallet, in savings and in earn added up; for a validator of the set the coin's truncated token value is added
     to the total exactly once and the same units are deducted from the shares the validator inherits (its own
-    power is computed from `shares − deductions`, see `valStep`).  Together with `C12_tally_le_bonded_partial`:
+    power is computed from `shares − deductions`, see `valStep`).  Together with `C12_tally_le_bonded`:
     nothing is counted twice. -/
 theorem C12_tally_counts_once (g : Cfg) (vals : List TVal) (t : TVote) (a : TAcc) (v : Nat) (x : Int)
     (hb : (tvAt vals v).bonded = true) (hS : (tvAt vals v).shares.m ≠ 0) :
@@ -502,33 +404,47 @@ theorem C12_tally_counts_once (g : Cfg) (vals : List TVal) (t : TVote) (a : TAcc
   obtain ⟨a', h1, h2, h3, h4, -⟩ := bkStep_effect g vals t.opts a v x hb hS
   exact ⟨n1, n2, a', h1, h2, h3, h4⟩
 
-/-- **FALSE on the code as it is** (a consequence of findings F6 + F8, reproduced on the real handler): the tally
-    must not panic — it runs in the gov end blocker.  A validator that exists with zero delegator shares (everybody
-    left; still unbonding) and one outstanding derivative unit (possible only because the supply exceeded the
-    module's shares) makes `TokensFromSharesTruncated` divide by zero. -/
-theorem C12_tally_no_panic_counterexample :
-    ¬ (∀ (vals : List TVal) (votes : List TVote), ValsOK vals → (∀ t ∈ votes, VoteOK0 t) →
-        (tally Cfg.current vals votes).isSome = true) := by
-  intro h
-  have hv : ValsOK exTValsEmpty := by
-    intro v hb
-    match v with
-    | 0 => decide
-    | 1 => cases hb
-    | n + 2 => cases hb
-  have hok : ∀ t ∈ exTVotesEmpty, VoteOK0 t := by
-    intro t ht
-    simp only [exTVotesEmpty, List.mem_singleton] at ht
-    subst ht
-    refine ⟨⟨?_, by decide, by decide⟩, by intro x hx; cases hx⟩
-    intro ow how; simp only [List.mem_singleton] at how; subst how; decide
-  have := h exTValsEmpty exTVotesEmpty hv hok
-  revert this; decide
-
-/-- proved for the repaired code: the handler never panics on a derivative -/
-theorem C12_tally_no_panic_fixed (g : Cfg) (hg : g.tallySkipUnbonded = true) (vals : List TVal) (hv : ValsOK vals)
-    (votes : List TVote) : (tally g vals votes).isSome = true := by
-  obtain ⟨o, ho⟩ := tally_some g hg vals hv votes
+/-- **The tally cannot panic on a derivative, live model** (it runs in the gov end blocker): a derivative whose
+    validator is not in the bonded set is skipped before any division, and a validator of the set has positive
+    shares. -/
+theorem C12_tally_no_panic (vals : List TVal) (hv : ValsOK vals) (votes : List TVote) :
+    (tally cfg vals votes).isSome = true := by
+  obtain ⟨o, ho⟩ := tally_some cfg rfl vals hv votes
   rw [ho]; rfl
+
+/-- the former witness (a validator emptied to zero shares with one derivative unit outstanding) -/
+example : (tally cfg exTValsEmpty exTVotesEmpty).map (fun o => o.counted) = some 0 := by decide
+
+/-! ## 7. History: the code before the three fix commits (`Cfg.current`) — not the live model
+
+  Kept as `example`s so that the record of what was wrong stays machine-checked: on `Cfg.current` four statements
+  of the property are false on literal witnesses (the same histories were reproduced on the real keepers, see
+  findings/C12-*.md; harness/cmd/c12/directed.go replays them on every run against the live code). -/
+
+/-- before 932d1f99a: a mint after a slash breaks backing (3 units against 2.1269… module shares) -/
+example : ¬ (∀ (M : Addr) (c c' : VSt) (d : Addr) (amount der : Int), d ≠ M → Backed M c →
+    mint Cfg.current M c d true amount = .ok (c', der) → Backed M c') := by
+  intro h
+  have w : (mint Cfg.current 0 exSlashed 1 true 3).okAnd (fun p => decide (¬ Backed 0 p.1)) = true := by decide
+  obtain ⟨⟨c', der⟩, hm, hp⟩ := Res.okAnd_elim w
+  exact (of_decide_eq_true hp) (h 0 exSlashed c' 1 3 der (by decide) (by decide) hm)
+
+/-- before 932d1f99a: the stake of a large holder is valued 2.01 tokens higher after a mint (sane rate, rate ≤ 1
+    before and after, claim ≤ shares: `exWhale_ok`) -/
+example : ¬ (∀ (M : Addr) (c c' : VSt) (d : Addr) (amount der : Int), d ≠ M →
+    mint Cfg.current M c d true amount = .ok (c', der) → ValueWithinTwo c c' d) := by
+  intro h
+  have w : (mint Cfg.current 0 exWhale 1 true 606).okAnd (fun p => decide (¬ ValueWithinTwo exWhale p.1 1)) = true := by decide
+  obtain ⟨⟨c', der⟩, hm, hp⟩ := Res.okAnd_elim w
+  exact (of_decide_eq_true hp) (h 0 exWhale c' 1 606 der (by decide) hm)
+
+/-- before 96498654b: a burn worth zero tokens stores a zero-share delegation for an account that never delegated -/
+example : (burn Cfg.current 0 exHolder 2 1).okAnd (fun p => decide (¬ NoEmptyAt p.1 2)) = true := by decide
+
+/-- before 66dfa73a4: 500 000 000 counted against 1 000 000 bonded -/
+example : (tally Cfg.current exTVals exTVotes).map (fun o => decide (bondedTotal exTVals < o.counted)) = some true := by decide
+
+/-- before 932d1f99a + 66dfa73a4: the tally divides by the zero shares of an emptied validator (panic) -/
+example : (tally Cfg.current exTValsEmpty exTVotesEmpty).isSome = false := by decide
 
 end KV.Liquid
